@@ -658,7 +658,8 @@ def check(tier: str, seed: int, t0: float, build: core.BuildStatus) -> int:
                         queue_oracle("ifexp", backend, ["bin", "Add", ["bin", "Add", tst, b], o], obs, expr, obs["column_type"], {"replay": replay, "ifexp": (tst, b, o)})
 
     # ---- 3. aggregates: accumulator typing ----
-    seeds = [("int", ["int", 0]), ("int1", ["int", 1])]
+    # the last one is a start value that is not a bare literal (a negated literal is a UnaryOp node): the accumulator still widens
+    seeds = [("int", ["int", 0]), ("int1", ["int", 1]), ("neg1", ["un", "USub", ["int", 1]])]
     updates = [("acc+1", ["bin", "Add", ["leaf", "acc"], ["int", 1]], "int"),
                ("acc+it", ["bin", "Add", ["leaf", "acc"], ["leaf", "it"]], "int"),
                ("acc+fl", ["bin", "Add", ["leaf", "acc"], ["leaf", "fl"]], "float"),
